@@ -159,6 +159,11 @@ def option_cases(ctx):
             solved = 'Solving...' in out
             clean_reject = (not solved) and p.returncode not in (0, 10, 20, 30) and 'Traceback' not in out and 'PANIC' not in out
             got = 'accept' if (solved or (p.returncode in (0, 10, 20, 30))) else ('reject' if clean_reject else 'raises')
+            # the property's own reading, independent of the regenerated parser: a value is valid iff it is a non-negative integer (for imax also the empty value)
+            spec = 'accept' if ((iv != '-' and int(iv) >= 0) or (val == '' and opt == 'imax')) else 'reject'
+            if got == m and got != spec:
+                bad.append({'key': 'c08:option-spec:%s=%s' % (opt, val), 'what': 'option --%s=%r: command line %s (exit %d); a value is valid exactly if it is a non-negative integer%s' % (
+                    opt, val, got, p.returncode, ' or empty' if opt == 'imax' else ''), 'input': {'option': opt, 'value': val}})
             if got != m:
                 bad.append({'key': 'c08:option:%s=%s' % (opt, val), 'what': 'option --%s=%r: command line %s (exit %d), regenerated parser %s' % (opt, val, got, p.returncode, m),
                             'input': {'option': opt, 'value': val}})
